@@ -5,7 +5,7 @@ identifier (ufl_id, id(), hash()) can reach the generated text, and classify it:
              any/all/sum/min/max, building another set)
   HashOrder  the enumeration order leaks (list(S), tuple(S), for x in S, comprehension into a
              list, passing S on to code that iterates it)
-  HistoryId  ufl_id()/id()/hash() used in a name or a sort key
+  HistoryId  ufl_id()/id()/hash() used in a name or a sort key; str / repr of the sorted objects as sort key
 Emits coq/gen/SitesGen.v.  Anything set-valued whose use is not recognised counts as HashOrder
 (fail-closed)."""
 import ast
@@ -141,6 +141,14 @@ class Scan(ast.NodeVisitor):
 
     def visit_Call(self, node):
         fn = _name(node.func)
+        # a sort / min / max whose key is the str or repr of the objects: for UFL's counted objects (coefficients,
+        # constants, arguments, meshes, function spaces) that text carries the process-global count
+        if fn in ("sorted", "sort", "min", "max"):
+            for kw in node.keywords:
+                if kw.arg == "key":
+                    kt = ast.unparse(kw.value)
+                    if kt in ("str", "repr") or any(t in kt for t in ("str(", "repr(", ".count()", "ufl_id", "id(", "hash(")):
+                        self.record(node, "HistoryId", "sort key " + kt[:30] + " in " + ast.unparse(node)[:50])
         if fn == "ufl_id" or (isinstance(node.func, ast.Name) and fn in ("id", "hash")):
             # harmless when only compared / used as a dict key inside one run; a name or a sort key is not
             p = self.parents.get(node)
@@ -228,6 +236,7 @@ def global_state_sites(tree, rel):
 
 # sites the scanner cannot clear by itself, each with the reason it is harmless (file, start of text)
 ALLOW = {
+    ("ffcx/analysis.py", "sort key lambda x: repr(x) in sorted(set(coordinate_elements)"): "repr of a basix.ufl element is built from its family, cell, degree, variants, shape and dtype only: no counter, no address",
     ("ffcx/codegeneration/common.py", "set((fname for"): "returned set is only compared with == in asserts",
     ("ffcx/ir/integral.py", "active_table_names (set)"): "fills dicts whose consumer iterates sorted(...) (IntegralGenerator.generate_element_tables)",
     ("ffcx/ir/integral.py", "_argkeys (set)"): "set of int: its iteration order does not depend on the hash seed; the list is only used for membership",
@@ -249,7 +258,7 @@ def scan_repo():
             sc.parents = {}
             sc.generic_visit(tree) if False else sc.visit(tree)
             for line, kind, what in sorted(set(sc.sites)):
-                if kind == "HashOrder" and any(rel == f and what.startswith(t) for f, t in ALLOW):
+                if kind in ("HashOrder", "HistoryId") and any(rel == f and what.startswith(t) for f, t in ALLOW):
                     kind = "OrderFree"
                 out.append((rel, line, kind, what))
             out.extend(sorted(set(global_state_sites(tree, rel))))
